@@ -285,7 +285,9 @@ func runUnit(spec *Spec, o *checkOpts, openKnown map[string]bool, openList []Kno
 	for _, c := range cexs {
 		ro, ok := confirmed[c.File]
 		reproduced := ok && (ro.Outcome == "assert-failed" || ro.Outcome == "panic")
-		if o.noReplay {
+		if o.noReplay || c.V.Kind == "lockset" {
+			// an unguarded access is a property of the executed path itself (a data
+			// race needs no particular native schedule to exist); reported without native replay
 			reproduced = true
 		}
 		if !reproduced {
